@@ -223,8 +223,9 @@ class Rec:
 
 
 class SymEval:
-    def __init__(self, model, cls=None, depth=3, maxpaths=400):
+    def __init__(self, model, cls=None, depth=3, maxpaths=400, no_splice=()):
         self.model, self.cls, self.depth, self.maxpaths = model, cls, depth, maxpaths
+        self.no_splice = set(no_splice)
 
     # -------------------------------------------------------------- expression rewriting
     def simplify(self, e):
@@ -317,7 +318,7 @@ class SymEval:
         f = call.func
         if isinstance(f, ast.Attribute) and isinstance(f.value, ast.Name) and f.value.id == 'self' and self.cls is not None:
             callee = self.cls.find(f.attr)
-            if callee is not None and f.attr not in ('_emit', 'emit', '_retain_refs', '_release_refs'):
+            if callee is not None and f.attr not in ('_emit', 'emit', '_retain_refs', '_release_refs') and f.attr not in self.no_splice:
                 static = any(src(d) == 'staticmethod' for d in callee.node.decorator_list)
                 if not any(src(d) in ('property', 'classmethod') for d in callee.node.decorator_list):
                     return callee, (0 if static else 1)
